@@ -49,6 +49,8 @@ enum Kind {
     Pass,
     Discard(String),
     Fail { sig: String, detail: String },
+    /// several independent failures in one case; an unknown one (if any) decides
+    FailMany(Vec<(String, String)>),
 }
 
 /// Verdict of one case.
@@ -72,6 +74,16 @@ impl Outcome {
         let sig: String = sig.into().chars().map(|c| if c.is_whitespace() { '_' } else { c }).collect();
         Outcome { kind: Kind::Fail { sig, detail: detail.into() }, nontrivial: true, classes: vec![] }
     }
+    /// Several independent failures observed in one case (e.g. one per entry point).  The
+    /// first one whose signature is not a listed known finding is the reported violation;
+    /// known ones are counted.  An empty list is a pass.
+    pub fn fail_many(fails: Vec<(String, String)>) -> Self {
+        if fails.is_empty() {
+            return Outcome::pass();
+        }
+        let fails = fails.into_iter().map(|(s, d)| (s.chars().map(|c| if c.is_whitespace() { '_' } else { c }).collect(), d)).collect();
+        Outcome { kind: Kind::FailMany(fails), nontrivial: true, classes: vec![] }
+    }
     pub fn nontrivial(mut self, b: bool) -> Self {
         self.nontrivial = b;
         self
@@ -87,7 +99,7 @@ impl Outcome {
         self
     }
     pub fn is_fail(&self) -> bool {
-        matches!(self.kind, Kind::Fail { .. })
+        matches!(self.kind, Kind::Fail { .. } | Kind::FailMany(_))
     }
     pub fn is_pass(&self) -> bool {
         matches!(self.kind, Kind::Pass)
@@ -95,6 +107,7 @@ impl Outcome {
     pub fn fail_sig(&self) -> Option<&str> {
         match &self.kind {
             Kind::Fail { sig, .. } => Some(sig),
+            Kind::FailMany(v) => v.first().map(|x| x.0.as_str()),
             _ => None,
         }
     }
@@ -369,6 +382,20 @@ impl Check {
                 } else {
                     Some((sig, detail))
                 }
+            }
+            Kind::FailMany(fails) => {
+                let mut unknown = None;
+                for (sig, detail) in fails {
+                    if let Some(text) = self.is_known(&sig) {
+                        if count {
+                            let e = st.known_hits.entry(sig.clone()).or_insert((0, text.to_string()));
+                            e.0 += 1;
+                        }
+                    } else if unknown.is_none() {
+                        unknown = Some((sig, detail));
+                    }
+                }
+                unknown
             }
         }
     }
